@@ -132,6 +132,21 @@ def main():
     for call in sched_calls:
         for s in (scheds if not quick else scheds[::3]):
             jobs.append({'kind': 'threads', 'n': 2, 'calls': [{'mod': call[0], 'fn': call[1], 'args': call[2]}], 'schedule': s})
+    # ---- line-granular schedules (sys.settrace scheduler, independent of the hooks): all schedules with <= 2 preemptions
+    rl = tlc.run('Gen_LineSched', workdir=chk.work, workers=1)
+    lscheds = []
+    for ln in rl.prints:
+        v = tlc.parse_value(ln)
+        if v and v[0] == 'LSCHED' and v[1] not in lscheds:
+            lscheds.append(v[1])
+    if len(lscheds) < 100:
+        raise run.MachineryError('line schedule generator produced %d schedules\n%s' % (len(lscheds), rl.out[-1000:]))
+    chk.cov['states'] += rl.distinct
+    chk.cov['transitions'] += rl.generated
+    line_calls = [firstuse[0], firstuse[1], firstuse[4], firstuse[16]] if quick else firstuse
+    for call in line_calls:
+        for sline in (lscheds[::4] if quick else lscheds):
+            jobs.append({'kind': 'threads', 'n': 2, 'calls': [{'mod': call[0], 'fn': call[1], 'args': call[2]}], 'schedule': None, 'lines': sline})
     # ---- run the jobs, each in its own interpreter
     with ThreadPoolExecutor(max_workers=16) as ex:
         outs = list(ex.map(run_runner, jobs))
@@ -180,7 +195,8 @@ def main():
                       rule='H1 events: every call of every TLC-generated history (8 calls over 23 call classes, returned containers mutated in place), of '
                            '16-thread barrier-released first-use rounds and of replayed 2-thread schedules (all 70 interleavings of 4 hook points each), '
                            'paired with the same call in a pristine interpreter; A1-A4 events: every hook event of those processes',
-                      extra={'histories': len(hists), 'thread_rounds': nst, 'schedules_replayed': len([j for j in jobs if j.get('schedule')]),
+                      extra={'histories': len(hists), 'thread_rounds': nst, 'schedules_replayed': len([j for j in jobs if j.get('schedule')]), 'line_schedules_replayed': len([j for j in jobs if j.get('lines')]),
+                             'line_steps_granted': sum(o.get('line_steps', 0) for o in outs),
                              'distinct_calls_with_fresh_oracle': len(keys), 'h1_events': len(hev), 'hook_events': len(rev),
                              'schedule_timeouts': nsched_timeouts})
 
